@@ -153,7 +153,8 @@ package consul
 //@
 //@ // ---- C14: every generated route command has passed fabio's own parser ---------------------------------------
 //@ func validateCommand
-//@   props C14
+//@   // C01: a command that cannot build a table would block EVERY later table update - the table would stop following the registry
+//@   props C01 C14
 //@   domain trigger
 //@   requires buildReady()
 //@   // builds a scratch table of its own: the writes are to the scratch buffers and to route objects it allocates
@@ -162,12 +163,12 @@ package consul
 //@   // accepted means: fabio's parser takes it, it is exactly ONE 'route add' definition, and a table can be built from it
 //@   ensures result == nil ==> accepts(cmd) && singleAdd(cmd) && tableAccepts(cmd)
 //@   // ... and the parser reads back from it exactly what it was generated from (the 'denote' clause of C14):
-//@   ensures result == nil ==> defService(cmd) == service && defSrc(cmd) == src && defDst(cmd) == dst
-//@   ensures result == nil ==> defWeight(cmd) == (weight == "" ? 0.0 : parseFloatVal(weight, 64))
-//@   ensures result == nil && !(len(tags) == 1 && tags[0] == "") ==> defTagsLen(cmd) == len(tags) && forall i int :: 0 <= i && i < len(tags) ==> defTag(cmd, i) == tags[i]
-//@   ensures result == nil ==> forall j int, k string :: 0 <= j && j < len(opts) && k == optKey(opts[j]) ==> defOptHas(cmd, k)
+//@   ensures @C14 result == nil ==> defService(cmd) == service && defSrc(cmd) == src && defDst(cmd) == dst
+//@   ensures @C14 result == nil ==> defWeight(cmd) == (weight == "" ? 0.0 : parseFloatVal(weight, 64))
+//@   ensures @C14 result == nil && !(len(tags) == 1 && tags[0] == "") ==> defTagsLen(cmd) == len(tags) && forall i int :: 0 <= i && i < len(tags) ==> defTag(cmd, i) == tags[i]
+//@   ensures @C14 result == nil ==> forall j int, k string :: 0 <= j && j < len(opts) && k == optKey(opts[j]) ==> defOptHas(cmd, k)
 //@   // ... and the value of the last word given for a key
-//@   ensures result == nil ==> forall j int, k string :: 0 <= j && j < len(opts) && k == optKey(opts[j]) && (forall j2 int :: j < j2 && j2 < len(opts) ==> optKey(opts[j2]) != k) ==> defOpt(cmd, k) == optVal(opts[j])
+//@   ensures @C14 result == nil ==> forall j int, k string :: 0 <= j && j < len(opts) && k == optKey(opts[j]) && (forall j2 int :: j < j2 && j2 < len(opts) ==> optKey(opts[j2]) != k) ==> defOpt(cmd, k) == optVal(opts[j])
 //@   loop 2 invariant forall j int, k string :: 0 <= j && j <= rangeindex && k == optKey(opts[j]) && (forall j2 int :: j < j2 && j2 <= rangeindex ==> optKey(opts[j2]) != k) ==> want[k] == optVal(opts[j])
 //@   loop 3 invariant forall j int, k string :: 0 <= j && j < len(opts) && k == optKey(opts[j]) && (forall j2 int :: j < j2 && j2 < len(opts) ==> optKey(opts[j2]) != k) ==> want[k] == optVal(opts[j])
 //@   loop 2 invariant forall k string :: hasKey(d.Opts, k) ==> d.Opts[k] == defOpt(cmd, k)
@@ -212,12 +213,12 @@ package consul
 //@ spec fun nOpts(fs []string, n int) int decreases n = n <= 0 ? 0 : nOpts(fs, n-1) + ((isProtoOpt(fs[n-1]) || isWeightOpt(fs[n-1])) ? 0 : (hasPrefix(fs[n-1], "redirect=") ? (len(splitParts(fs[n-1][9:], ",")) == 2 ? 1 : 0) : 1))
 //@
 //@ func (routecmd).build
-//@   props C14
+//@   props C01 C14
 //@   requires r.svc != nil && buildReady()
 //@   assigns bufOf, scanFailed, builtFrom, mapsOf(map[string]route.Routes), elems(*route.Route), route.Route.Targets, route.Route.wTargets, elems(*route.Target), route.Target.Weight, route.Target.FixedWeight, route.Target.accessRules, elems(interface{}), mapsOf(map[string][]interface{}), ioWrites, lastWrite
 //@   ensures nopanic
 //@   // every emitted command denotes the registered service ...
-//@   ensures forall i int :: 0 <= i && i < len(result) ==> defService(result[i]) == r.svc.ServiceName
+//@   ensures @C14 forall i int :: 0 <= i && i < len(result) ==> defService(result[i]) == r.svc.ServiceName
 //@   // ... and, at the point where it is emitted, the prefix of its tag, the destination and weight chosen for it, the
 //@   // service's plain tags and the tag's option words
 //@   at "config = append(config, cfg)" assert accepts(cfg) && singleAdd(cfg) && tableAccepts(cfg) && len(config) >= 1 && config[len(config)-1] == cfg
